@@ -108,6 +108,19 @@ func vfPacketId(p stanza.Packet) (kind, id string) {
 	return p.Name(), ""
 }
 
+// countKind: how many routed packets of that kind (stanza name, or Packet.Name() for non-stanzas) the catch-all has seen
+func (o *vfObs) countKind(kind string) int {
+	o.mu.Lock()
+	defer o.mu.Unlock()
+	n := 0
+	for _, k := range o.kinds {
+		if k == kind {
+			n++
+		}
+	}
+	return n
+}
+
 // catchAll registers a route without matchers that records every routed packet.
 func (o *vfObs) catchAll(r *Router) {
 	r.NewRoute().HandlerFunc(func(s Sender, p stanza.Packet) {
